@@ -225,12 +225,14 @@ def Parsed.attr (p : Parsed) (part : Str) : Except Raise (Option Str) :=
     | .int i => .ok (some (intStr i))
   else .error .attributeError
 
-/-- the `required` half of the loop body: does it return `required_part`? -/
+/-- the `required` half of the loop body: does it return `required_part`?  (after the repair of
+    KF-C15-c / -d: `if required is True: if not value`, `elif required is not None and required is
+    not False: if value not in required`) -/
 def reqFails (required : Option PartRule) (value : Option Str) : Bool :=
   match required with
-  | some .always => value.isNone                                   -- `if value is None`
-  | some (.oneOf l) =>                                              -- `elif required:`
-    !l.isEmpty && !(match value with | some s => l.contains s | none => false)  -- `value not in required`
+  | some .always => (match value with | some s => s.isEmpty | none => true)      -- `if not value`
+  | some (.oneOf l) =>                                              -- `elif required is not None and required is not False:`
+    !(match value with | some s => l.contains s | none => false)    -- `value not in required`
   | some .off => false
   | none => false
 
